@@ -376,24 +376,39 @@ def run_property(prop: str, tier: str, seed: int, jobs: int = 0, only: Optional[
                 continue
             cut_problems.append(f'{h.name}: {v} path(s) cut: {k}')
 
-    # ---- candidates -> native confirmation (fresh interpreter, no stubs)
+    # ---- candidates -> native replay.  Every candidate is replayed in-process (the stubs are transparent on concrete
+    # values); one representative per (harness, check, first config value) is then confirmed in a FRESH interpreter with
+    # no stub installed before a VIOLATION line is printed.
     violations = []
     unconfirmed = []
-    seen = set()
+    also = []
+    groups: Dict[Any, list] = {}
+    reproduced_keys = set()
     for cand in all_candidates:
         key = (cand['harness'], json.dumps(cand['config'], sort_keys=True, default=str), cand['check'])
-        if key in seen and len([v for v in violations if v[0] == key]) >= 1:
+        if key in reproduced_keys:
             continue
-        path = confirm(cand, prop, len(violations))
-        if path:
-            if key not in seen:
-                violations.append((key, path, cand))
-            seen.add(key)
+        fl, _, ab = replay_inprocess(cand['harness'], cand['config'], cand['inputs'], prop)
+        if fl:
+            reproduced_keys.add(key)
+            cfg0 = next(iter(cand['config'].values()), None) if cand['config'] else None
+            groups.setdefault((cand['harness'], cand['check'], json.dumps(cfg0, default=str)), []).append(cand)
         else:
             unconfirmed.append(cand)
-    # a (harness, config, check) with at least one confirmed violation does not also count as unconfirmed
     unconfirmed = [c for c in unconfirmed
-                   if (c['harness'], json.dumps(c['config'], sort_keys=True, default=str), c['check']) not in seen]
+                   if (c['harness'], json.dumps(c['config'], sort_keys=True, default=str), c['check']) not in reproduced_keys]
+    from concurrent.futures import ThreadPoolExecutor
+    reps = [(g, cs[0]) for g, cs in sorted(groups.items())][:int(os.environ.get('VERIF_MAX_CONFIRM', '24'))]
+    with ThreadPoolExecutor(8) as ex:
+        paths = list(ex.map(lambda gc: confirm(gc[1], prop, 0), reps))
+    for (g, cand), path in zip(reps, paths):
+        if path:
+            violations.append((g, path, cand))
+            also += [c for c in groups[g][1:]]
+        else:
+            unconfirmed.append(cand)
+    for g, cs in sorted(groups.items())[len(reps):]:
+        also += cs
     known_lines = {}
     for cand in all_known_hits:
         kid = cand['known']
@@ -457,6 +472,8 @@ def run_property(prop: str, tier: str, seed: int, jobs: int = 0, only: Optional[
             'undecided_samples': undecided_samples,
             'violations': [{'replay': p, 'harness': c['harness'], 'config': c['config'], 'check': c['check']}
                            for _, p, c in violations],
+            'violating_configs_replayed_in_process_only': [{'harness': c['harness'], 'config': c['config'], 'check': c['check']}
+                                                            for c in also][:200],
             'known_findings_reproduced': sorted(known_lines),
             'exhaustive': False,
             'jobs': jobs,
